@@ -245,7 +245,7 @@ def wide_scalar_st(t):
     if isinstance(t, Types.ListElement):
         return wide_scalar_st(t.converter)
     if isinstance(t, Types.Bool):
-        return st.booleans().map(lambda b: ["bool", b])
+        return st.one_of(st.booleans().map(lambda b: ["bool", b]), st.booleans().map(lambda b: ["bool", b]), st.sampled_from([["int", 0], ["int", 1], ["str", "y"], ["str", "Y"]]))
     if isinstance(t, Types.String):
         cap = t.length if t.length is not None else 40
         return st.one_of(
@@ -254,9 +254,14 @@ def wide_scalar_st(t):
             st.text(st.sampled_from("&<a"), min_size=cap, max_size=cap) if cap <= 300 else st.just("&<"),
         ).map(lambda x: ["str", x])
     if isinstance(t, Types.OneOf):
-        return st.sampled_from(list(t.valid)).map(lambda x: ["tok", x])
+        # mostly declared tokens; sometimes a spelling that differs only in case, or a foreign token (must be refused, or
+        # whatever is written must be a declared token)
+        tok = st.sampled_from(list(t.valid))
+        return st.one_of(tok, tok, tok, tok.map(lambda x: str(x).lower()), tok.map(lambda x: str(x).capitalize()), st.just("ZZ_FOREIGN")).map(lambda x: ["tok", x])
     if isinstance(t, Types.Integer):
-        return int_st(t.length).map(lambda n: ["int", n])
+        # bool is an int subclass; values beyond the digit limit must be refused
+        over = 10 ** (t.length or 12)
+        return st.one_of(int_st(t.length).map(lambda n: ["int", n]), int_st(t.length).map(lambda n: ["int", n]), st.booleans().map(lambda b: ["bool", b]), st.sampled_from([over, -over, over * 10 + 3]).map(lambda n: ["int", n]))
     if isinstance(t, Types.Decimal):
         special = st.sampled_from(["NaN", "sNaN", "Infinity", "-Infinity", "-0", "0E-10", "0E+5", "1E+2", "1E-30", "-1.50E+3", "1E+30", "123456789012345678901234567890", "0.000000000000000000001"])
         general = st.builds(
